@@ -274,6 +274,12 @@ func fuzzBatch(seed int64, n int, adversarial bool) *fuzzReport {
 		"$e", "$e/a", "$e[1]", "boolean($e)", "string($e)", "$e | $e", "sum($e)", "$u", "$p:z", "f($e, $z)", "concat($z, 'a')", "//*[$z]", "$v[$z]", "lang($z)"} {
 		tryExpr(t, false)
 	}
+	// strings that are almost numerals: conversions are total and never fail internally
+	for _, lit := range []string{"-", " - ", ".", "-.", "+", "", " ", "--1", "1-", "-\t", "1.2.3", "٣", "- 1", "1e", "0x", "-0", ".-"} {
+		for _, tmpl := range []string{"number('%s')", "'%s' * 2", "-'%s'", "'%s' < 1", "sum(//*) + '%s'", "round('%s')", "substring('abc', '%s')", "//*['%s' + 1]", "string(number('%s'))"} {
+			tryExpr(fmt.Sprintf(tmpl, lit), true)
+		}
+	}
 	for _, depth := range depths {
 		tryExpr(strings.Repeat("(", depth)+"1"+strings.Repeat(")", depth), true)
 		tryExpr(strings.Repeat("-", depth)+"1", true)
